@@ -2,6 +2,7 @@
 From Coq Require Import List NArith ZArith String Bool.
 From DT Require Import GenStatus GenEvent GenMsgType FsmTypes GenFsm Fsm Machine View Msg Transport FsmFacts MachineFacts C09Proofs C16Proofs.
 From DT Require Node C09Reject.
+From DT Require GenDecide DecideEq.
 Import ListNotations.
 
 (* the cleanup entry function releases the transport channel once, un-protects the other party
@@ -127,3 +128,11 @@ Theorem C09_rejected_request_closes_transport :
     C09Reject.after_reply k e = Node.bind (Node.exec (Node.ITransport (Node.TClose k))) (fun _ => Node.Ret e).
 Proof. exact C09Reject.rejected_request_closes_transport. Qed.
 Print Assumptions C09_rejected_request_closes_transport.
+
+(* the signal handed back to whoever carried a request (Node.request_error: a validation error
+   first, then rejection, then "stay paused") is the one in the source: regenerated from
+   impl/receiving_requests.go manager.requestError on every run *)
+Theorem C09_request_signal_is_the_sources :
+  forall vr err stay, GenDecide.gen_requestError vr err stay = Node.request_error vr err stay.
+Proof. exact DecideEq.request_error_is_source. Qed.
+Print Assumptions C09_request_signal_is_the_sources.
